@@ -17,6 +17,17 @@ Families
                simulation the buffers, derivative.time_to_maturity, every bound-once feature (get(None), get(i)
                for every i) and the FeatureList must be those of the CURRENT grid (oracle for the time
                features, a freshly bound feature for the others).
+  long_grid    BrownianStock (own simulate and through EuropeanOption, n_paths=1) on long grids: for every dt
+               symbol every k up to Klong whose float quotient M/dt is not exactly k (thorough: every k), M
+               written as k*dt, k/den and decimal literal: k+1 points and time_to_maturity(0) == k*dt.
+  local_vol    LocalVolatilityStock with time-dependent sigma_fn: the function must be called with exactly the
+               times i*dt, i = 0..T-1, once each and in order; the volatility buffer column i must equal
+               sigma_fn(i*dt, spot[:, i]) - i.e. it lives on the same grid as time_to_maturity = (T-1-i)*dt.
+  swap         histories over the operations {simulate, replace the underlier by attribute assignment (three
+               stocks with other dt / class, one of them carrying paths from earlier use)}: after every
+               simulate, ul(), .underlier, underliers(), every buffer, time_to_maturity, moneyness, payoff,
+               features (bound before and after the swap) and the hedger are on the grid of the CURRENT stock;
+               the replaced stocks are not touched.
 """
 from __future__ import annotations
 
@@ -548,6 +559,274 @@ def resimulate(ctx, block):
 
 
 # ----------------------------------------------------------------------------
+# long grids
+# ----------------------------------------------------------------------------
+
+def long_pairs(dtsym, k_lo, k_hi, only_sensitive):
+    label, dt, den, lit = dtsym
+    seen = {}
+    for k in range(k_lo, k_hi + 1):
+        forms = [("k*dt", k * dt)]
+        if den is not None:
+            forms.append(("k/den", k / den))
+        if lit is not None:
+            forms.append(("literal", float(Decimal(lit) * k)))
+        for form, M in forms:
+            if M in seen or (only_sensitive and M / dt == k):
+                continue
+            seen[M] = [M, dt, form, k]
+    return list(seen.values())
+
+
+@family
+def long_grid(ctx, block):
+    dtype = DT[block.get("dtype", "float64")]
+    eps = torch.finfo(dtype).eps
+    torch.manual_seed(0)
+    for (M, dt, form, k) in block["cases"]:
+        T, cls, kk = R.expected_points(M, dt)
+        if T is None:
+            raise AssertionError(f"enumeration produced an undefined-zone pair {(M, dt)}")
+        mini = dict(block, cases=[[M, dt, form, k]])
+        p = market.primary("brownian", dtype=dtype, dt=dt)
+        p.simulate(n_paths=1, time_horizon=M)
+        oT = p.spot.size(1)
+        ctx.tick(1, nontrivial=1 if M / dt != kk else 0)
+        ctx.outcome(("long", oT - T))
+        if tuple(p.spot.shape) != (1, T):
+            ctx.violation("BrownianStock.simulate", "long_grid_" + R.classify_steps(M, dt, oT),
+                          f"BrownianStock(dt={dt!r}).simulate(time_horizon={M!r}) [{form}, k={k}] gives {oT} time points, "
+                          f"{T} expected: M/dt is {kk} up to {float(abs(R.quotient(M, dt) - kk) / kk):.1e} relative, float "
+                          f"quotient {M / dt!r}", observed=oT, expected=T, block=mini)
+            continue
+        if not block.get("through_option"):
+            continue
+        d = market.derivative("european", p, maturity=M)
+        d.simulate(n_paths=1)
+        t0 = d.time_to_maturity(0)
+        tl = d.time_to_maturity(-1)
+        ctx.tick(1, nontrivial=1)
+        e = (T - 1) * Fraction(dt)
+        if tuple(d.ul().spot.shape) != (1, T) or tuple(t0.shape) != (1, 1) or abs(Fraction(float(t0)) - e) > 3 * eps * e \
+                or float(tl) != 0.0:
+            ctx.violation("EuropeanOption.time_to_maturity", "long_grid_first_step",
+                          f"EuropeanOption(BrownianStock(dt={dt!r}), maturity={M!r}) [{form}, k={k}]: grid "
+                          f"{tuple(d.ul().spot.shape)}, time_to_maturity(0) = {float(t0)!r} (expected k*dt = {float(e)!r}), "
+                          f"time_to_maturity(-1) = {float(tl)!r}", observed=[list(d.ul().spot.shape), float(t0), float(tl)],
+                          expected=[[1, T], float(e), 0.0], block=mini)
+
+
+# ----------------------------------------------------------------------------
+# local volatility: the volatility buffer lives on the grid 0, dt, ..., (T-1)*dt
+# ----------------------------------------------------------------------------
+
+SIGMA_FNS = {
+    "time": lambda t, s: 0.125 + t + 0.0 * s,
+    "time_and_spot": lambda t, s: 0.125 + 0.5 * t + 0.0625 * s,
+    "spot": lambda t, s: 0.125 + 0.0625 * s,
+}
+
+
+@family
+def local_vol(ctx, block):
+    dtype = DT[block["dtype"]]
+    eps = torch.finfo(dtype).eps
+    fn = SIGMA_FNS[block["sigma_fn"]]
+    n_paths = block["n_paths"]
+    torch.manual_seed(0)
+    for (M, dt, form, k) in block["cases"]:
+        T = R.expected_points(M, dt)[0]
+        mini = dict(block, cases=[[M, dt, form, k]])
+        calls = []
+
+        def recording(t, s, calls=calls):
+            calls.append((float(t), tuple(s.shape)))
+            return fn(t, s)
+
+        p = market.primary("local_vol", dtype=dtype, dt=dt, sigma_fn=recording)
+        if block["route"] == "own":
+            p.simulate(n_paths=n_paths, time_horizon=M)
+            d = None
+        else:
+            d = market.derivative(block["route"], p, **_deriv_kwargs(block["route"], M, dt))
+            d.simulate(n_paths=n_paths)
+        ctx.tick(1, nontrivial=1)
+        spot, vol = p.spot, p.volatility
+        if tuple(spot.shape) != (n_paths, T) or tuple(vol.shape) != (n_paths, T):
+            ctx.violation("LocalVolatilityStock.simulate", "buffer_shape", f"spot {tuple(spot.shape)} volatility "
+                          f"{tuple(vol.shape)}, expected ({n_paths}, {T})", observed=[list(spot.shape), list(vol.shape)],
+                          expected=[n_paths, T], block=mini)
+            continue
+        times = [c[0] for c in calls]
+        # fl(dt * i) in the dtype (float32: dt rounded to the dtype first): relative error <= 1.5*eps
+        ok_times = len(times) == T and all(abs(Fraction(times[i]) - i * Fraction(dt)) <= 1.5 * eps * i * dt for i in range(T))
+        ctx.outcome(("lv", block["sigma_fn"], T, len(times)))
+        if not ok_times:
+            if len(times) != T:
+                c = f"sigma_fn_called_{len(times) - T:+d}_times"
+            else:
+                shift = {round((times[i] - i * dt) / dt) for i in range(T)}
+                c = f"sigma_fn_times_shifted_by_{shift.pop():+d}_steps" if len(shift) == 1 else "sigma_fn_times_off_grid"
+            ctx.violation("LocalVolatilityStock.simulate", c,
+                          f"LocalVolatilityStock(dt={dt!r}) horizon {M!r} (T={T}): sigma_fn was called with times {times[:6]}..., "
+                          f"expected exactly i*dt = {[i * dt for i in range(min(T, 6))]}... (the grid of time_to_maturity)",
+                          observed=times[:12], expected=[i * dt for i in range(min(T, 12))], block=mini)
+        # the registered volatility buffer is sigma_fn on the grid i*dt, evaluated at the registered spot
+        worst = None
+        for i in range(T):
+            e = fn(torch.tensor(i * dt, dtype=dtype), spot[:, i])
+            err = (vol[:, i] - e).abs().max().item()
+            if err > 4 * eps * float(e.abs().max()):
+                worst = (i, vol[:, i].tolist(), e.tolist())
+                break
+        ctx.tick(T)
+        if worst and block["sigma_fn"] != "spot" or (worst and ok_times):
+            i, got, exp = worst
+            ctx.violation("LocalVolatilityStock.volatility", "not_sigma_fn_on_grid",
+                          f"LocalVolatilityStock(dt={dt!r}, sigma_fn={block['sigma_fn']}) horizon {M!r}: volatility[:, {i}] = {got} "
+                          f"but sigma_fn({i}*dt, spot[:, {i}]) = {exp}: the volatility buffer is not on the grid i*dt on which "
+                          f"time_to_maturity = (T-1-i)*dt lives", observed=got, expected=exp, block=mini)
+        if d is not None and block["route"] in market.OPTION_KINDS and ok_times:
+            ttm_ = d.time_to_maturity()[0].tolist()
+            horizon = (T - 1) * dt
+            if any(abs(Fraction(times[i]) + Fraction(ttm_[i]) - (T - 1) * Fraction(dt)) > 4 * eps * horizon for i in range(T)):
+                ctx.violation("LocalVolatilityStock.simulate", "volatility_grid_vs_time_to_maturity",
+                              "time passed to sigma_fn + time_to_maturity is not the maturity at every step",
+                              observed=[times, ttm_], expected=horizon, block=mini)
+
+
+# ----------------------------------------------------------------------------
+# histories with the operation "replace the underlier by attribute assignment"
+# ----------------------------------------------------------------------------
+
+def _swap_world(block):
+    """Three stocks on different step sizes / classes; B carries paths from earlier, unrelated use."""
+    dtype = DT[block["dtype"]]
+    dtA, dtB, dtC = block["dts"]
+    A = market.primary("brownian", dtype=dtype, dt=dtA)
+    B = market.primary(block.get("kindB", "heston"), dtype=dtype, dt=dtB)
+    B.simulate(n_paths=5, time_horizon=block["M"] * 2)
+    C = market.primary("brownian", dtype=dtype, dt=dtC, sigma=0.3)
+    return {"A": A, "B": B, "C": C}
+
+
+@family
+def swap(ctx, block):
+    from pfhedge.features import get_feature
+    from pfhedge.nn import BlackScholes, Hedger, Naked
+    route, M = block["route"], block["M"]
+    dtype = DT[block["dtype"]]
+    eps = torch.finfo(dtype).eps
+    is_option = route in market.OPTION_KINDS
+    torch.manual_seed(0)
+    for hist in block["histories"]:
+        stocks = _swap_world(block)
+        d = market.derivative(route, stocks["A"], **_deriv_kwargs(route, M, stocks["A"].dt))
+        cur = "A"
+        pre = {n: get_feature(n).of(d) for n in (["underlier_spot"] + (["log_moneyness", "time_to_maturity"] if is_option else []))}
+        ctx.add("traces_validated_against_impl", 1)
+        swapped = False
+        for r, op in enumerate(hist):
+            mini = dict(block, histories=[hist[:r + 1]])
+            ctx.add("transitions", 1)
+            if op.startswith("swap"):
+                cur = op[4:]
+                try:
+                    d.underlier = stocks[cur]
+                except Exception as e:
+                    ctx.violation(type(d).__name__ + ".__setattr__", f"raises:{type(e).__name__}",
+                                  f"history {hist[:r + 1]}: derivative.underlier = new stock raised {type(e).__name__}: {str(e)[:160]}",
+                                  observed=repr(e)[:200], expected="underlier replaced", block=mini)
+                    break
+                swapped = True
+                continue
+            n_paths = int(op[3:])
+            X = stocks[cur]
+            T = R.expected_points(M, X.dt)[0]
+            when = "after_swap" if swapped else "before_swap"
+            others = {k: market.snapshot(v) for k, v in stocks.items() if k != cur}
+            problems = []
+            try:
+                d.simulate(n_paths=n_paths)
+                ctx.tick(1, nontrivial=1 if swapped else 0)
+                if d.ul() is not X or d.underlier is not X or [id(u) for u in d.underliers()] != [id(X)]:
+                    problems.append(("registry", "ul() / .underlier / underliers() are not the assigned stock",
+                                     [type(d.ul()).__name__, d.ul().dt, type(d.underlier).__name__, d.underlier.dt], [type(X).__name__, X.dt]))
+                shapes = {n: tuple(b.shape) for n, b in X.named_buffers()}
+                if not shapes or any(sh != (n_paths, T) for sh in shapes.values()):
+                    problems.append(("buffers", f"buffers of the current stock {shapes}, expected ({n_paths}, {T})",
+                                     {k: list(v) for k, v in shapes.items()}, [n_paths, T]))
+                for k_, snap in others.items():
+                    if market.snapshot_diff(snap, market.snapshot(stocks[k_])):
+                        problems.append(("other_stock_touched", f"simulate() changed the buffers of stock {k_} which is not the "
+                                         f"underlier any more", k_, "untouched"))
+                if not problems:
+                    pay = d.payoff()
+                    if tuple(pay.shape) != (n_paths,):
+                        problems.append(("payoff", f"payoff shape {tuple(pay.shape)}", list(pay.shape), [n_paths]))
+                    if is_option:
+                        tt = d.time_to_maturity()
+                        ok = tuple(tt.shape) == (n_paths, T)
+                        if ok:
+                            row = tt[0].tolist()
+                            tol = 3 * eps * (T - 1) * X.dt
+                            ok = all(abs(Fraction(row[i]) - R.time_to_maturity(T, i, X.dt)) <= tol for i in range(T)) and row[-1] == 0.0
+                        if not ok:
+                            problems.append(("time_to_maturity", f"time_to_maturity() shape {tuple(tt.shape)}, first "
+                                             f"{float(tt.flatten()[0])!r}; expected ({n_paths}, {T}) starting at {(T - 1) * X.dt!r}",
+                                             list(tt.shape), [n_paths, T]))
+                        mo = d.log_moneyness()
+                        if tuple(mo.shape) != (n_paths, T) or not _same(mo, (X.spot / d.strike).log()):
+                            problems.append(("moneyness", f"log_moneyness() shape {tuple(mo.shape)} is not the current stock's",
+                                             list(mo.shape), [n_paths, T]))
+                    feats = dict(pre)
+                    feats.update({n + "(fresh)": get_feature(n).of(d) for n in pre})
+                    for n, f in feats.items():
+                        g = f.get(None)
+                        ctx.tick(1)
+                        good = tuple(g.shape) == (n_paths, T, 1)
+                        if good and n.startswith("underlier_spot"):
+                            good = _same(g[:, :, 0], X.spot)
+                        if not good:
+                            problems.append((f"feature_{n.split('(')[0]}", f"feature {n}: get(None) shape {tuple(g.shape)} / not the "
+                                             f"current stock's grid ({n_paths}, {T}, 1)", list(g.shape), [n_paths, T, 1]))
+                    models = [("naked", Naked(1), ["zeros"])]
+                    if is_option and cur in ("A", "B", "C"):
+                        m_ = BlackScholes(d)
+                        models.append(("bs", m_, m_.inputs()))
+                    for mname, model, inputs in models:
+                        hg = Hedger(model, inputs)
+                        with torch.no_grad():
+                            h = hg.compute_hedge(d)
+                            pl_ = hg.compute_pl(d)
+                        ctx.tick(2)
+                        if tuple(h.shape) != (n_paths, 1, T) or tuple(pl_.shape) != (n_paths,):
+                            problems.append((f"hedger_{mname}", f"compute_hedge {tuple(h.shape)}, compute_pl {tuple(pl_.shape)}",
+                                             list(h.shape), [n_paths, 1, T]))
+                        hl = hg._get_hedge(d, None)
+                        if [id(x) for x in hl] != [id(X)]:
+                            problems.append(("hedge_instrument", "the default hedging instrument is not the assigned stock",
+                                             [type(x).__name__ for x in hl], type(X).__name__))
+            except Exception as e:
+                problems.append((f"raises:{type(e).__name__}", f"{type(e).__name__}: {str(e)[:200]}", repr(e)[:200], "no exception"))
+            ctx.outcome((route, cur, T, n_paths, len(problems)))
+            ctx.add("states", 1)
+            for what, msg, obs, exp in problems:
+                ctx.violation(type(d).__name__ + " underlier replaced" if swapped else type(d).__name__ + ".simulate",
+                              f"{when}_{what}",
+                              f"history {hist[:r + 1]} on {type(d).__name__}(maturity={M!r}); stocks A={type(stocks['A']).__name__}"
+                              f"(dt={stocks['A'].dt!r}), B={type(stocks['B']).__name__}(dt={stocks['B'].dt!r}, carries a "
+                              f"{tuple(stocks['B'].spot.shape) if cur != 'B' else 'previous'} path), C=BrownianStock(dt={stocks['C'].dt!r}); "
+                              f"current underlier {cur} (dt={X.dt!r}, {T} points expected): {msg}",
+                              observed=obs, expected=exp, block=mini)
+            if problems:
+                break
+    if len(ctx.samples) < 6 and block["histories"]:
+        ctx.sample({"family": "swap", "route": route, "M": M, "dts": block["dts"],
+                    "history": block["histories"][len(block["histories"]) // 2]})
+
+
+# ----------------------------------------------------------------------------
 
 def _chunks(cases, n):
     return [cases[i:i + n] for i in range(0, len(cases), n)]
@@ -569,7 +848,11 @@ def run(ctx):
              "points.  resimulate: every sequence of length 3 (thorough 4) over the (M/dt, n_paths) symbols (all |S|^depth "
              "for EuropeanOption/BrownianStock, all permutations for the other derivative classes) x dt x dtype, features "
              "bound once; states = simulations, transitions = re-simulations, traces = histories; non-trivial = rounds "
-             "after the first")
+             "after the first.  long_grid: BrownianStock, every dt symbol x every k in (K, Klong] whose float quotient M/dt is "
+             "not exactly k (thorough: also every k <= 3000) x forms k*dt, k/den, literal.  local_vol: 3 sigma_fn x routes x "
+             "dtype x the k <= 5 (12) pairs; every call time of sigma_fn recorded.  swap: every operation sequence of length "
+             "<= 3 (4) over {simulate(2), simulate(3), underlier = A|B|C} that ends with a simulate and contains a swap, x 6 "
+             "derivative classes x 2 stock triples; non-trivial = simulations after a swap")
     ctx.assume("expected number of points computed with exact Fractions on the float arguments; 'integer' = within "
                "4*2^-52*k of k; no enumerated pair lies between that and 1e-6 of an integer (asserted)")
     ctx.assume("the number of steps does not depend on the random draws (seed fixed, values unused)")
@@ -670,8 +953,48 @@ def run(ctx):
         blocks.append(("resimulate", {"primary": "heston", "route": "european", "dt": 1 / 365, "dtype": "float64",
                                       "histories": perms}))
 
+    # long grids (BrownianStock): rounding-sensitive k up to Klong, thorough: every k
+    Klong = ctx.pick(3000, 6000)
+    ctx.info["Klong"] = Klong
+    n_long = 0
+    for dsym in dts:
+        sens = long_pairs(dsym, K + 1, Klong, only_sensitive=True)
+        n_long += len(sens)
+        for ch in _chunks(sens, 500):
+            blocks.append(("long_grid", {"through_option": True, "cases": ch}))
+        if ctx.thorough:
+            for ch in _chunks(long_pairs(dsym, K + 1, 3000, only_sensitive=False), 1000):
+                blocks.append(("long_grid", {"through_option": False, "cases": ch}))
+    ctx.add("long_grid_rounding_sensitive_pairs", n_long)
+    # local volatility: time-dependent sigma_fn
+    lv_cases = [c for c in small_pairs if c[3] <= ctx.pick(5, 12)]
+    for fn_name in SIGMA_FNS:
+        for route in (["own", "european", "variance_swap"] if ctx.quick else ["own"] + DERIVS):
+            for dtype in ("float64", "float32"):
+                if ctx.quick and dtype == "float32" and route != "own":
+                    continue
+                for ch in _chunks(lv_cases, 200):
+                    blocks.append(("local_vol", {"sigma_fn": fn_name, "route": route, "n_paths": 2, "dtype": dtype, "cases": ch}))
+    # histories with "replace the underlier by attribute assignment"
+    ops = ["sim2", "swapB", "swapC", "swapA", "sim3"]
+    depth = ctx.pick(3, 4)
+    shist = []
+    for L in range(1, depth + 1):
+        for h in itertools.product(ops, repeat=L):
+            if h[-1].startswith("sim") and any(o.startswith("swap") for o in h) and \
+                    not any(h[i].startswith("swap") and h[i + 1].startswith("swap") and h[i] == h[i + 1] for i in range(L - 1)):
+                shist.append(list(h))
+    ctx.alphabet("swap operations", ops)
+    for route in DERIVS:
+        for dts3, M, kindB in ([(1 / 250, 1 / 365, 0.01), 30 / 365, "heston"], [(0.1, 0.25, 0.01), 0.6, "merton"]):
+            if ctx.quick and route not in ("european", "lookback", "variance_swap") and kindB == "merton":
+                continue
+            for ch in _chunks(shist, 64):
+                blocks.append(("swap", {"route": route, "M": M, "dts": list(dts3), "kindB": kindB, "dtype": "float64",
+                                        "histories": ch}))
+
     if ctx.thorough:
-        for name in ("grid_steps", "ttm", "grid_use", "cross_dt", "resimulate"):
+        for name in ("grid_steps", "ttm", "grid_use", "cross_dt", "resimulate", "long_grid", "local_vol", "swap"):
             ctx.run_parallel(name, [b for n, b in blocks if n == name])
     else:
         for name, b in blocks:
